@@ -224,7 +224,7 @@ class Baton(object):
                         self.sched.popleft()
                     self.running = tid
                     return
-                if not self.cv.wait(20):
+                if not self.cv.wait(8):
                     self.failed = 'scheduler wait timed out in thread %s' % tid
                     self.running = tid
                     self.cv.notify_all()
@@ -275,7 +275,17 @@ class Blocked(Exception):
     pass
 
 
-STALLS = [0]      # schedules under which some thread could not proceed for 20 s, twice (never on a tree that holds the property)
+import sys as _sys
+import time as _time
+_T0 = _time.time()
+
+
+def DBG(*a):
+    if os.environ.get('VERIF_DEBUG'):
+        _sys.stderr.write('[c03 %.0fs] %s\n' % (_time.time() - _T0, ' '.join(str(x) for x in a)))
+
+
+STALLS = [0]      # schedules under which some thread could not proceed for 8 s, twice (never on a tree that holds the property)
 
 
 BLOCKED = {'keys': ['error', 'result'], 'res': {'t': 'blank'}, 'err': '#DID-NOT-RETURN', 'errkind': 'str'}
@@ -334,7 +344,7 @@ def run_threads(lib, case, attempt=0):
         t.start()
     stuck = False
     for t in ts:
-        t.join(45)
+        t.join(25)
         stuck = stuck or t.is_alive()
     if stuck or baton.failed:
         # an evaluation that does not come back under this interleaving (it waits for something another thread holds) is a
@@ -364,7 +374,7 @@ def run_delegate(lib, case, attempt=0):
         if count['n'] == case['at']:
             t = threading.Thread(target=lambda: w.parse(tp, inner, solo_in), daemon=True)
             t.start()
-            t.join(30)
+            t.join(8)
             if t.is_alive():
                 state['blocked'] = True
 
@@ -377,7 +387,7 @@ def run_delegate(lib, case, attempt=0):
     if state['blocked']:
         if attempt == 0:
             return run_delegate(lib, case, attempt=1)
-        # the listener waited 30 s for the other thread's evaluation, twice: a host that waits without a time limit never
+        # the listener waited 8 s for the other thread's evaluation, twice: a host that waits without a time limit never
         # gets its answer (whatever the worker does once the listener has given up)
         text = inner['raw'] if 'raw' in inner else F.render(inner)
         with w.lock:
@@ -635,17 +645,23 @@ def main(tier, replay=None):
                                         ev, _ = run_nested(lib, c2)
                                         traces.append({'tid': len(traces) + 1, 'ev': ev, 'case': c2})
     run.extra['nesting_histories'] = len(traces)
+    DBG('nesting done', len(traces))
     # --- the listener hands the inner evaluation to another thread and waits for it
-    ndel = 0
+    ndel = nblocked = 0
     for oi, outer in enumerate(outers):
         c = callback_points(lib, outer)
         for at in range(1, c + 1):
             for ii in ((1, 2, 5) if quick else range(len(inners))):
                 for post in (False, True):
+                    if nblocked >= 2:       # two evaluations that never came back are enough (each costs seconds of waiting)
+                        continue
                     case = {'kind': 'delegate', 'outer': outer, 'inner': inners[ii], 'target': 'p2', 'at': at, 'post': post}
-                    traces.append({'tid': len(traces) + 1, 'ev': run_delegate(lib, case), 'case': case})
+                    ev = run_delegate(lib, case)
+                    nblocked += any(e['e'] == 'parse' and e['out'] is BLOCKED for e in ev)
+                    traces.append({'tid': len(traces) + 1, 'ev': ev, 'case': case})
                     ndel += 1
     run.extra['delegating_histories'] = ndel
+    DBG('delegates done', ndel, nblocked)
     # --- threads: all interleavings of two short evaluations on distinct parsers
     longnum = {'raw': 'ISNUMBER("' + '9' * 5000 + '"+0)&LEN("' + '7' * 4400 + '"&"")'}     # a numeral longer than Python converts by default
     pairs = [(inners[0], inners[1]), (outers[0], inners[1]), (longnum, inners[1]), (inners[5], inners[3]), (outers[3], outers[2]),
@@ -688,6 +704,7 @@ def main(tier, replay=None):
         traces.append({'tid': len(traces) + 1, 'ev': run_threads(lib, case), 'case': case})
         nthread += 1
     run.extra['thread_histories'] = nthread
+    DBG('threads done', nthread, STALLS[0])
     run.extra['schedules_under_which_a_thread_stalled'] = STALLS[0]
     # --- one handler function subscribed (on / once / not at all) on two parsers, evaluations in sequence
     nshared = 0
@@ -700,6 +717,7 @@ def main(tier, replay=None):
                 traces.append({'tid': len(traces) + 1, 'ev': run_shared(lib, case), 'case': case})
                 nshared += 1
     run.extra['shared_handler_histories'] = nshared
+    DBG('shared done')
     CH = 1500
     for k in range(0, len(traces), CH):
         core.validate_hist(run, traces[k:k + CH], 'p%d' % (k // CH), consts, engine='c03')
